@@ -57,9 +57,10 @@ def replay(rec, ctx):
                 elif e["m"] == "wrong-shape":
                     setattr(obj, e["op"], np.zeros((2, 3, 1), dtype=(np.int32 if e["op"] == "voxel_map" else bool)))
                 elif e["op"] == "voxel_map":
-                    obj.voxel_map = _arr(e["m"], np.int32)
+                    # the map as int32 or as numpy's default int64 (the object converts), alternating with the history length
+                    obj.voxel_map = _arr(e["m"], np.int32 if len(h) % 2 else np.int64)
                 else:
-                    obj.mask = _arr(e["m"], bool)
+                    obj.mask = _arr(e["m"], bool if len(h) % 2 else np.uint8)
             except ValueError:
                 outcome = "ValueError"
             except Exception as ex:          # noqa: BLE001
